@@ -131,6 +131,7 @@ type c15World struct {
 	cycle    bool
 	cycleIDs []uint16
 	cycleHit chan struct{} // closed when the first (blocked) request is on the wire
+	sink     bool          // the peer ignores everything (family wrapc, path B)
 }
 
 func c15Varint(b []byte) (n, used int) {
@@ -155,6 +156,9 @@ func (w *c15World) note(s string) {
 
 // onPkt runs on the writer's goroutine (under the client's write lock): it never blocks.
 func (w *c15World) onPkt(s *session, pkt []byte) {
+	if w.sink {
+		return
+	}
 	typ := pkt[0] >> 4
 	_, used := c15Varint(pkt[1:])
 	body := pkt[1+used:]
@@ -351,6 +355,9 @@ type c15Out struct {
 	requests           int
 	skipped            int
 	contended, dropped int
+	wrapc, retry       []string
+	nontrivN           int
+	retrySamples       int
 }
 
 func (o *c15Out) violation(kind string, detail interface{}) {
@@ -1194,6 +1201,14 @@ func runC15(cfg *runCfg) error {
 			o.dropped++ // no overlap proved and nothing wrong seen: try again for a better burst
 		}
 	}
+	// --- wrapc: the wrap-around under contention ---
+	if err := c15Wrapc(o, r, cfg.tier); err != nil {
+		return err
+	}
+	// --- retry: identifiers through RetryClient ---
+	if err := c15Retry(o, r, cfg.tier); err != nil {
+		return err
+	}
 	// --- cycle / F13 probe ---
 	f13 := 0
 	for i := 0; i < cycles; i++ {
@@ -1227,15 +1242,21 @@ func runC15(cfg *runCfg) error {
 	cf.def("bulk_cases", "list c15_bulk_case", cList(o.bulk))
 	cf.result("V_bulk", "c15_bulk_violations bulk_cases")
 	cf.result("M_bulk", "c15_bulk_mismatches bulk_cases")
+	cf.def("wrapc_cases", "list c15_bulk_case", cList(o.wrapc))
+	cf.result("V_wrapc", "c15_wrapc_violations wrapc_cases")
+	cf.result("M_wrapc", "c15_wrapc_mismatches wrapc_cases")
+	cf.def("retry_cases", "list c15_retry_case", cList(o.retry))
+	cf.result("V_retry", "c15_retry_violations retry_cases")
+	cf.result("M_retry", "c15_retry_mismatches retry_cases")
 	cf.def("cycle_cases", "list c15_cycle_case", cList(o.cycle))
 	cf.result("V_cycle", "c15_cycle_violations cycle_cases")
 	cf.result("M_cycle", "c15_cycle_mismatches cycle_cases")
 
 	m.ImplViolations = o.impl
-	m.Evaluations = len(o.seq) + len(o.conc) + len(o.bulk) + len(o.cycle)
-	m.DistinctNontrivial = len(o.nontriv)
-	m.Rule = "one evaluation = one scenario on a fresh connected BaseClient with the counter set by VerifSetIDLast (or left as initID chose it): seq = a history of requests and acknowledgements by one caller; conc = 1-16 callers in parallel, all requests outstanding; bulk = thousands of goroutines released together; cycle = one request never acknowledged + 70,000 acknowledged publishes (full cycle, reproduces F13). non-trivial = distinct scenario with at least 3 requests (seq), at least 2 callers and 4 requests (conc), every bulk and cycle scenario"
-	m.Distribution["scenarios"] = map[string]int{"seq": len(o.seq), "conc": len(o.conc), "bulk": len(o.bulk), "cycle": len(o.cycle)}
+	m.Evaluations = len(o.seq) + len(o.conc) + len(o.bulk) + len(o.cycle) + len(o.wrapc) + len(o.retry)
+	m.DistinctNontrivial = len(o.nontriv) + o.nontrivN
+	m.Rule = "one evaluation = one scenario on a fresh connected BaseClient with the counter set by VerifSetIDLast (or left as initID chose it): seq = a history of requests and acknowledgements by one caller; conc = 1-16 callers in parallel, all requests outstanding; bulk = thousands of goroutines released together; cycle = one request never acknowledged + 70,000 acknowledged publishes (full cycle, reproduces F13); wrapc = one distinct outcome of the short contention trials at a wrap-around (thousands of trials, identical outcomes counted once); retry = one scenario of publishes, cuts and reconnections through a RetryClient. non-trivial = distinct scenario with at least 3 requests (seq), at least 2 callers and 4 requests (conc), every bulk, cycle and wrapc entry, retry scenarios with at least 4 PUBLISH attempts"
+	m.Distribution["scenarios"] = map[string]int{"seq": len(o.seq), "conc": len(o.conc), "bulk": len(o.bulk), "cycle": len(o.cycle), "wrapc": len(o.wrapc), "retry": len(o.retry)}
 	m.Distribution["requests_issued"] = o.requests
 	m.Distribution["request_kinds"] = o.kinds
 	m.Distribution["start_counter"] = o.starts
